@@ -249,6 +249,9 @@ func (ts *TS) ownAtReturn(c *tsCtx, s *tsState, pos token.Pos) {
 		case st == "B" && unbound:
 			ts.violate("own/unbound-not-released", fmt.Sprintf("%s: table entry of %s deleted but its entry not released", fnName(c.rootFn), shortTok(t)), pos,
 				"the fid was removed from the table while it still holds a live entry that is never clunked: the file system's handle leaks")
+		case st == "N" && !unbound && ts.lookedUp[t]:
+			ts.violate("own/nil-left-bound", fmt.Sprintf("%s: fid %s left in the table after its entry was released", fnName(c.rootFn), shortTok(t)), pos,
+				"the entry of a fid found in the table was released (and cleared) but the fid was not removed from the table: it answers 'unknown fid' to every operation and its number can never be reused (duplicate fid)")
 		case st == "N" && !unbound && !s.file[t] && ts.reserved[t]:
 			ts.violate("own/placeholder-left", fmt.Sprintf("%s: reserved fid %s neither bound nor removed", fnName(c.rootFn), shortTok(t)), pos,
 				"a fid reserved with a placeholder is left in the table with no entry: it can neither be used nor reused (duplicate fid for ever)")
